@@ -408,6 +408,10 @@ Inv_Bounded == (scn.k = "cost" /\ pc = "done") => Class = "within"
 \* weaker form used for the as-built sensitivity runs: the model does not certainly exceed
 Inv_NotExceeding == (scn.k = "cost" /\ pc = "done") => Class # "exceeds"
 
+\* entity / DTD constructs: the reference design rejects the declaration, nothing is expanded
+Inv_EntitiesNotExpanded ==
+    (scn.k = "cost" /\ EntityMustNotExpand(scn.c)) => \A i \in DOMAIN TheItems : ItemN(TheItems[i]) = 0
+
 \* every scenario terminates in "done" (checked as: no deadlock state other than done)
 Inv_Progress == (~ENABLED Next) => pc = "done"
 =============================================================================
